@@ -250,4 +250,91 @@ theorem weak_duality (C : List (List α)) (y w w' r : List α) (l1 l2 c dn : α)
   rw [f1', f3] at f1
   nlinarith [f1, f2', f5]
 
+/-! ### intercept and normal equations -/
+
+theorem dot_residual (b : α) (r y a : List α) (h : y.length = a.length) (hr : r.length = y.length) :
+    dot r (List.zipWith (fun yi xi => yi - xi - b) y a) = dot r y - dot r a - b * r.sum := by
+  induction r generalizing y a with
+  | nil => simp
+  | cons x xs ih => cases y with
+    | nil => simp at hr
+    | cons p ps => cases a with
+      | nil => simp at h
+      | cons q qs =>
+        simp only [List.zipWith_cons_cons, dot_cons, List.sum_cons]
+        rw [ih ps qs (by simpa using h) (by simpa using hr)]; ring
+
+theorem sum_zipWith_zero (C : List (List α)) (r w : List α) (h : ∀ c ∈ C, dot c r = 0) :
+    (List.zipWith (fun c wj => dot c r * wj) C w).sum = 0 := by
+  induction C generalizing w with
+  | nil => simp
+  | cons c C ih => cases w with
+    | nil => simp
+    | cons wj w =>
+      simp only [List.zipWith_cons_cons, List.sum_cons]
+      rw [ih w (fun c' hc => h c' (List.mem_cons_of_mem _ hc)), h c List.mem_cons_self]; ring
+
+theorem residual_length (C : List (List α)) (y w : List α) (b : α) (hC : ∀ c ∈ C, c.length = y.length) :
+    (residual C y w b).length = y.length := by
+  simp [residual, matVec_length _ _ _ hC]
+
+theorem residual_shift (C : List (List α)) (y w : List α) (b : α) :
+    residual C y w b = (residual C y w 0).map (· - b) := by
+  simp [residual, List.map_zipWith]
+
+/-- `Σ(vᵢ−b)² = Σ(vᵢ−m)² + 2(m−b)(Σv − n·m) + n(m−b)²` -/
+theorem sum_sq_shift (v : List α) (b m : α) :
+    dot (v.map (· - b)) (v.map (· - b)) =
+      dot (v.map (· - m)) (v.map (· - m)) + 2 * (m - b) * (v.sum - (v.length : α) * m)
+        + (v.length : α) * (m - b) ^ 2 := by
+  induction v with
+  | nil => simp
+  | cons x xs ih =>
+    simp only [List.map_cons, dot_cons, List.sum_cons, List.length_cons, Nat.cast_succ]
+    rw [ih]; ring
+
+/-- the scalar problem solved by one coordinate update -/
+theorem soft_threshold_argmin (tmp thr den z : α) (hthr : 0 ≤ thr) (hden : 0 < den) :
+    1 / 2 * den * (softThreshold tmp thr den) ^ 2 - tmp * softThreshold tmp thr den
+        + thr * |softThreshold tmp thr den|
+      ≤ 1 / 2 * den * z ^ 2 - tmp * z + thr * |z| := by
+  unfold softThreshold signumS
+  rw [maxS_eq, absS_eq]
+  have hz1 : 0 ≤ thr * (|z| - z) := mul_nonneg hthr (sub_nonneg.2 (le_abs_self z))
+  have hz2 : 0 ≤ thr * (|z| + z) := mul_nonneg hthr (by linarith [neg_abs_le z])
+  by_cases hle : |tmp| - thr ≤ 0
+  · -- below the threshold: the update is 0, and 0 is optimal
+    rw [max_eq_right hle]
+    have h0 : ∀ s : α, s * 0 / den = 0 := by intro s; simp
+    rw [h0]
+    simp only [ne_eq, OfNat.ofNat_ne_zero, not_false_eq_true, zero_pow, mul_zero, abs_zero, sub_self, add_zero]
+    have h1 : tmp * z ≤ |tmp| * |z| := by rw [← abs_mul]; exact le_abs_self _
+    have h2 : |tmp| * |z| ≤ thr * |z| := mul_le_mul_of_nonneg_right (by linarith) (abs_nonneg z)
+    nlinarith [mul_nonneg hden.le (sq_nonneg z)]
+  · have hgt : 0 < |tmp| - thr := lt_of_not_ge hle
+    rw [max_eq_left hgt.le]
+    by_cases hneg : tmp < 0
+    · rw [if_pos hneg, abs_of_neg hneg]
+      rw [abs_of_neg hneg] at hgt
+      set ws := -1 * (-tmp - thr) / den with hws
+      have hk : den * ws = tmp + thr := by rw [hws]; field_simp; ring
+      have hwneg : ws < 0 := by
+        rw [hws]; apply div_neg_of_neg_of_pos _ hden; linarith
+      rw [abs_of_neg hwneg]
+      nlinarith [mul_nonneg hden.le (sq_nonneg (z - ws)), hz2, hk]
+    · rw [if_neg hneg]
+      have hpos : 0 ≤ tmp := le_of_not_gt hneg
+      rw [abs_of_nonneg hpos] at hgt ⊢
+      set ws := 1 * (tmp - thr) / den with hws
+      have hk : den * ws = tmp - thr := by rw [hws]; field_simp
+      have hwpos : 0 < ws := by
+        rw [hws]; apply div_pos _ hden; linarith
+      rw [abs_of_pos hwpos]
+      nlinarith [mul_nonneg hden.le (sq_nonneg (z - ws)), hz1, hk]
+
+theorem soft_threshold_zero (tmp thr den : α) (h : |tmp| ≤ thr) : softThreshold tmp thr den = 0 := by
+  unfold softThreshold
+  rw [maxS_eq, absS_eq, max_eq_right (by linarith)]
+  simp
+
 end LinfaSpec.LeastSquares
